@@ -132,6 +132,7 @@ type opCase struct {
 	Force  int    `json:"force"`  // SM2 signing: derive the digest so that the first accepted nonce is refused (1: r=0, 2: r+k=n, 3: s=0)
 	Chunk  int    `json:"chunk"`  // the source hands out at most this many bytes per Read (0 = whole requests)
 	Flags  int    `json:"flags"`  // flagScratch | flagStutter | flagArgs (reader_test.go)
+	Peer   int    `json:"peer"`   // Curve field of the peer's *ecdsa.PublicKey struct handed to the call (peerCurveNames); X, Y stay the valid SM2 point
 	Fault  int    `json:"fault"`  // 0 = fault-free fidelity case; else the fault mode
 	At     int    `json:"at"`     // byte of the main stream that cannot be delivered (fault cases)
 }
